@@ -61,6 +61,17 @@ func WorkerMain(t Target) {
 		os.Exit(runBatch(t, *prop, *seed, *from, *to, *out, *maxS, *shrinkBudget, *evlog))
 	case "replay":
 		os.Exit(replayFile(t, *file))
+	case "selfout":
+		data, code := SelfOutput(t)
+		if code != 0 || data == "" {
+			fmt.Fprintln(os.Stderr, "self regeneration failed, exit", code)
+			os.Exit(1)
+		}
+		if err := os.WriteFile(*out, []byte(data), 0644); err != nil {
+			fmt.Fprintln(os.Stderr, err)
+			os.Exit(2)
+		}
+		os.Exit(0)
 	default:
 		fmt.Fprintln(os.Stderr, "unknown mode", mode)
 		os.Exit(2)
